@@ -77,7 +77,7 @@ def run(ck, F, tier):
         "ovl-div": (1, "gauss_reduction: divisor x = array[[j,j]] is the pivot just located as non-zero by find_map and swapped into row j"),
     }
     a = Audit(ck, F, "S1", FROM_H, ["h"], reviewed=reviewed, domain=[(num(1), Rr, False), (Rr, Cc, False)]).run()
-    ck.floor("S1", "sites reachable from from_h", len(a.tracer.sites), 35)
+    ck.floor("S1", "sites reachable from from_h", len(a.tracer.sites), 20)
     fb = F.body(FROM_H)
     # error mapping: the only early return is Err(SubmatrixNotInvertible), taken exactly when gauss_reduction's result matches Err(..)
     # (read off the path conditions of the return events: match / if let / let else all give the same condition)
@@ -103,6 +103,24 @@ def run(ck, F, tier):
         on_gauss = sa is not None and atom_fn(sa) == "linalg::gauss_reduction"
         return on_gauss and (("Err" in str(pat) and pol) or ("Ok" in str(pat) and not pol))
     ok = len(errs) == 1 and len(rets) == 1 and bool(errs[0].guards) and gauss_err_guard(*errs[0].guards[-1]) and not errs[0].loops
+    if not rets:
+        # gauss_reduction(..).map_err(|NotInvertible| SubmatrixNotInvertible)? : the `?` is the only early exit and maps the error
+        trs = [e for e in st.events if e.callee == "<try>" and not e.loops]
+        for e in trs:
+            va = single_atom(e.args[0]) if isinstance(e.args[0], Poly) else None
+            if va and atom_fn(va) == "try" and isinstance(atom_args(va)[0], Poly):
+                va = single_atom(atom_args(va)[0])
+            if va and atom_fn(va) == "std::result::Result::<T, E>::map_err":
+                subj, clo = atom_args(va)
+                sa_ = single_atom(subj) if isinstance(subj, Poly) else None
+                if sa_ is not None and atom_fn(sa_) == "linalg::gauss_reduction":
+                    from ..idioms import as_closure
+                    try:
+                        mapped = st.apply(as_closure(F, st, clo), [("variant", "NotInvertible")])
+                    except Unsupported:
+                        mapped = None
+                    ok = mapped == ("variant", "SubmatrixNotInvertible") and len([x for x in trs if "gauss_reduction" in repr(x.args[0])]) == 1
+                    errs = [e]
     why = ("the only early return is Err(SubmatrixNotInvertible), under the condition that gauss_reduction(..) returned Err" if ok else
            "early returns: %s" % [(repr(e.args)[:80], [(repr(g)[:80], p) for g, p in e.guards[-1:]]) for e in rets])
     unw = [x for x in st.sites if x["kind"] == "call" and re.search(r"::(unwrap|expect)$", x["detail"]) and "gauss_reduction" in repr(x["vals"][:1])]
@@ -111,7 +129,7 @@ def run(ck, F, tier):
     # ---- S2 / S3 / S4 on encode ---------------------------------------------------------
     eb = F.body(ENCODE)
     # helpers of the encoder module (e.g. an extracted running-sum function) are expanded at their call sites
-    te = Tracer(F, r"ndarray::concatenate|ndarray::.*::dot|ndarray::.*::from_iter", mode="int",
+    te = Tracer(F, r"ndarray::concatenate|ndarray::.*::dot|ndarray::.*::from_iter|ndarray::.*::accumulate_axis_inplace", mode="int",
                 inline=lambda p: F.bodies.get(p) if p and p.startswith("encoder::") and p != ENCODE else None)
     env = {}
     for p, nm in zip(eb.params, ("self", "message")):
@@ -149,6 +167,22 @@ def run(ck, F, tier):
     asg = [e for e in te.events if e.callee == "<assign>" and e.loops]
     ok3 = False
     why = "no accumulate loop found in the Staircase arm"
+    accs = [e for e in te.events if e.callee.endswith("::accumulate_axis_inplace")]
+    if len(accs) == 1 and not asg:
+        # idiom C: parity.accumulate_axis_inplace(Axis(0), |&prev, cur| *cur += prev) - ndarray's running accumulation along the axis
+        # (documented as: for i in 1..len { f(&a[i-1], &mut a[i]) })
+        from ..idioms import as_closure
+        e = accs[0]
+        axis_ok = e.args[1] == ("ctor", "Axis", [num(0)])
+        tq = Tracer(F, "NONE", mode="int")
+        try:
+            tq.apply(as_closure(F, te, vkey(e.args[2]) if isinstance(e.args[2], tuple) and isinstance(e.args[2][1], dict) else e.args[2]), [var("prev"), var("cur")])
+        except Unsupported:
+            pass
+        st_ = [x for x in tq.events if x.callee == "<assign>"]
+        step_ok = len(st_) == 1 and st_[0].args == [var("cur"), var("prev")] and st_[0].node.get("op", "").startswith("Add") and not st_[0].guards
+        ok3 = axis_ok and step_ok
+        why = "parity.accumulate_axis_inplace(Axis(0), |prev, cur| *cur += prev) [axis %s, step %s]" % (axis_ok, step_ok)
     LEN = "ndarray::impl_methods::<impl ndarray::ArrayBase<S, D>>::len"
     if len(asg) == 1 and len(asg[0].loops) == 1 and asg[0].node.get("op", "").startswith("Add"):
         l = asg[0].loops[0]
